@@ -160,21 +160,25 @@ def chk_case(inp, c):
     for st in set(row_status):
         c.cell("status=" + str(st))
 
-    def mech(base, r):
+    def mech(base, r, excess=1.0):
+        """Status-aware mechanism key.  'optimal_inaccurate' explains deviations of the order of the tolerance only: more
+        than 4x the tolerance is keyed ':gross' (never a known finding)."""
         st = row_status[r]
-        return base if st in (None, "optimal") else f"{base.split(':')[0]}@{st}"
+        if st in (None, "optimal"):
+            return base
+        return f"{base.split(':')[0]}@{st}" + (":gross" if (st == "optimal_inaccurate" and excess > 4.0) else "")
     slack_any = False
     gaps = []
     for r in range(N):
         x, b = X[r], B[r]
         viol = np.maximum(lbv - x, x - ubv)
-        c.require(np.all(viol <= 1e-5 * rngx), "intensities within the bounds", mechanism=mech("bounds", r), row=r,
+        c.require(np.all(viol <= 1e-5 * rngx), "intensities within the bounds", mechanism=mech("bounds", r, float(np.max(viol / (1e-5 * rngx)))), row=r,
                   worst=float(np.max(viol)))
         res = float(np.linalg.norm(w * (Mt @ x + c0 - b)))
         tol_res = eps * (1 + 1e-3) + 1e-7 * (1 + float(np.max(np.abs(w * b))))     # solver feasibility tolerance is relative
         c.margin("fit residual / l2_eps", res, tol_res)
         c.require(res <= tol_res, "the target is reproduced within the requested tolerance l2_eps",
-                  mechanism=mech("not-reproduced", r), row=r, residual=res, l2_eps=eps, opt=opt)
+                  mechanism=mech("not-reproduced", r, res / tol_res), row=r, residual=res, l2_eps=eps, opt=opt)
         c.require(np.all(np.abs(Bp[r] - (Mt @ x + c0)) <= 1e-10 * (np.abs(Mt) @ np.abs(x) + np.abs(c0)) + 1e-12),
                   "predicted capture is the model's capture of the returned intensities", mechanism="prediction", row=r)
         xo = inner_optimum(opt, val, Mt, c0, lbv, ubv, b, w, eps)
@@ -189,7 +193,7 @@ def chk_case(inp, c):
         tol = 1e-3 * (1 + abs(fo))
         gaps.append(f - fo)
         c.margin("secondary objective gap / tol", f - fo, tol)
-        c.require(f - fo <= tol, "no feasible intensity vector has a better secondary objective", mechanism=mech(f"suboptimal:{opt}", r),
+        c.require(f - fo <= tol, "no feasible intensity vector has a better secondary objective", mechanism=mech(f"suboptimal:{opt}", r, (f - fo) / tol),
                   row=r, obj=f, obj_witness=fo, witness_x=xo, x=x)
         lo, hi = oracles.lp_range(Mt, c0, lbv, ubv, b)
         if lo is not None and np.max(hi - lo) > 1e-3 * np.max(rngx):
